@@ -114,6 +114,47 @@ fn panic_sig(p: &PanicInfo) -> String {
     format!("panic:{}:{}:{}", p.stage, p.site, p.msg)
 }
 
+/// Structural invariant of the two-watched-literal scheme on the clause database a solve leaves
+/// behind: every clause that has watches watches two of its own literals and sits exactly once in the
+/// watch list of each of them; a watch list only contains clauses that watch its literal. A watch that
+/// got lost (a clause unlinked from a list it still relies on) silently disables propagation of that
+/// clause long before it shows in a result.
+pub fn check_watches(d: &VerifDump) -> Result<(), (String, String)> {
+    use std::collections::HashMap as Map;
+    let lists: Map<(VerifVar, bool), &Vec<usize>> = d.watch_lists.iter().map(|(l, v)| (*l, v)).collect();
+    for (i, w) in d.watched.iter().enumerate() {
+        let Some([a, b]) = w else { continue };
+        let lits = &d.clauses[i].literals;
+        for l in [a, b] {
+            if !lits.contains(l) {
+                return Err(("watches:foreign-literal".into(), format!("clause {i} ({:?}) watches {l:?}, which is not one of its literals {lits:?}", d.clauses[i].kind)));
+            }
+            let n = lists.get(l).map_or(0, |v| v.iter().filter(|&&c| c == i).count());
+            if n != 1 {
+                return Err((
+                    "watches:lost".into(),
+                    format!("clause {i} ({:?} {lits:?}) watches {l:?} but occurs {n} times in that literal's watch list {:?}", d.clauses[i].kind, lists.get(l)),
+                ));
+            }
+        }
+        if a == b {
+            return Err(("watches:same-literal-twice".into(), format!("clause {i} watches {a:?} twice")));
+        }
+    }
+    for (l, list) in &d.watch_lists {
+        for &c in list {
+            let ok = d.watched.get(c).and_then(|w| w.as_ref()).map_or(false, |w| w[0] == *l || w[1] == *l);
+            if !ok {
+                return Err(("watches:stale-entry".into(), format!("the watch list of {l:?} contains clause {c}, which does not watch it")));
+            }
+        }
+        if list.len() > d.clauses.len() {
+            return Err(("watches:cyclic-list".into(), format!("the watch list of {l:?} does not end")));
+        }
+    }
+    Ok(())
+}
+
 /// Evaluates property `prop` on one (case, cfg). `order` positions violations
 /// deterministically (family no, index, cfg no).
 pub fn check(prop: P, case: &Case, cfg: &RunCfg, order: (usize, u64, u32), acc: &mut Acc) {
@@ -153,6 +194,14 @@ pub fn check(prop: P, case: &Case, cfg: &RunCfg, order: (usize, u64, u32), acc: 
     let v = |sig: String, what: String, obs: String| {
         mk_violation(prop.id(), sig, what, case, &cfg, obs, order)
     };
+    if matches!(prop, P::C01 | P::C02) {
+        if let Some(d) = &res.dump {
+            acc.count("watch_structures_checked");
+            if let Err((sig, what)) = check_watches(d) {
+                acc.violation(v(sig, what, res.outcome.short()));
+            }
+        }
+    }
     match prop {
         P::C01 | P::C05 | P::C14 => {
             if let Outcome::Ok(sol) = &res.outcome {
